@@ -21,6 +21,9 @@ PURE_HEX = rb"(?i)[a-f0-9]+"
 PURE_LETTERS = rb"(?i)[a-z]+"
 # a bare base64 text of at least 22 characters without line breaks, optional padding
 B64_BARE = rb"[A-Za-z0-9+/]{22,}={0,2}"
+# "line breaks and their HTML escapes ignored": the break spellings (a proper character reference ends in ';')
+B64_LINE_BREAKS = [b"\n", b"\r", b"\r\n", b"&#10;", b"&#13;", b"&#xA;", b"&#xD;", b"&#xa;", b"&#xd;", b"&#13;&#10;", b"&#xD;&#xA;", b"&#xD;&#10;", b"&#13;\n",
+                   b"&#13;&#10;\r\n"]
 # one element of a PowerShell byte array
 PS_BYTE = rb"(?:0x[0-9a-fA-F]{2}|[0-9]{1,3})"
 
